@@ -241,11 +241,11 @@ theorem aggregateBps_spec {C} (zero : C) (ploidy : Nat) (borders : List Nat) :
     obtain ⟨ih1, ih2⟩ := aggregateBps_spec zero ploidy borders rs (off + r.ncols)
       (fun x hx => h x (List.mem_cons_of_mem _ hx))
     have htot : totalCols (r :: rs) = r.ncols + totalCols rs := by simp [totalCols]
-    have hmid : (r.bps.map (fun b => (⟨b.position + off, b.haplotypes, b.confidence⟩ : Breakpoint C))).Pairwise
+    have hmid : (r.bps.map (fun b => (mkBreakpoint (b.position + off) b.haplotypes b.confidence : Breakpoint C))).Pairwise
         (fun a b => a.position ≤ b.position) := by
       rw [List.pairwise_map]
       exact hsorted.imp (by intro a b hab; show a.position + off ≤ b.position + off; omega)
-    have hmidr : ∀ b ∈ r.bps.map (fun b => (⟨b.position + off, b.haplotypes, b.confidence⟩ : Breakpoint C)),
+    have hmidr : ∀ b ∈ r.bps.map (fun b => (mkBreakpoint (b.position + off) b.haplotypes b.confidence : Breakpoint C)),
         off ≤ b.position ∧ b.position < off + r.ncols := by
       intro b hb
       obtain ⟨b0, hb0, rfl⟩ := List.mem_map.mp hb
